@@ -29,10 +29,10 @@ func (c17) Budget(tier string) int {
 
 func (c17) Describe() engine.Info {
 	return engine.Info{
-		Rule: "class off: LCD on, k NOPs (k mod 114 enumerated by index, plus whole lines so that every mode incl. VBlank is hit), then the guest switches the LCD off and runs a block of 4..30 pointer operations in FE00-FEFF; class vblank: the guest polls LY until 144 and runs the block; class mode3: the guest polls STAT until mode 3 and runs a short block (finishes before the next mode 2). " +
+		Rule: "class dma: the guest starts an OAM DMA from work RAM at each cycle offset of a line (index-enumerated), optionally switches the LCD off while it runs, waits for it to complete and then runs the pointer block (LCD off, or on in VBlank); class off: LCD on, k NOPs (k mod 114 enumerated by index, plus whole lines so that every mode incl. VBlank is hit), then the guest switches the LCD off and runs a block of 4..30 pointer operations in FE00-FEFF; class vblank: the guest polls LY until 144 and runs the block; class mode3: the guest polls STAT until mode 3 and runs a short block (finishes before the next mode 2). " +
 			"Oracle: OAM (side-effect-free peek) equals the reference shadow OAM at every instruction boundary, except for instructions during which the reference LCD timing was in mode 2 with the LCD on (the bug is allowed there; the shadow is re-synchronised). Signature = (class, reference mode when the LCD went off / when the block ran, line-offset bucket, kind of pointer operation).",
-		Assumptions:    []string{"no DMA is started in these programs", "the reference LCD timing decides whether an instruction overlapped mode 2 (one boundary of slack on each side)"},
-		RequiredProbes: []string{"lcd_off_in_mode2", "lcd_off_in_mode3", "lcd_off_in_mode0", "lcd_off_in_mode1", "pointer_op_lcd_off", "pointer_op_vblank", "pointer_op_mode3_0", "oam_write_by_cpu"},
+		Assumptions:    []string{"class dma: OAM is not judged while a transfer started by the guest is in flight (166 cycles); afterwards it must equal the source page and then obeys the same rule", "the reference LCD timing decides whether an instruction overlapped mode 2 (one boundary of slack on each side)"},
+		RequiredProbes: []string{"dma_started_in_mode2", "lcd_off_during_dma", "dma_completed", "lcd_off_in_mode2", "lcd_off_in_mode3", "lcd_off_in_mode0", "lcd_off_in_mode1", "pointer_op_lcd_off", "pointer_op_vblank", "pointer_op_mode3_0", "oam_write_by_cpu"},
 		RealComponents: realComponents, StubComponents: stubComponents,
 		Sweeps: []string{"LCD switched off at each of the 114 cycle offsets of a line (class off, index-enumerated)"},
 	}
@@ -95,6 +95,35 @@ func (c17) Generate(r *engine.Rand, index int, tier string) *engine.Scenario {
 		g.emit(0x3e, r.Byte()&0x7f, 0xe0, 0x40) // LCD off
 		c17Block(g, r.Range(4, 30))
 	case 2:
+		if index%6 == 5 {
+			// an OAM DMA started at any cycle of a line (mode 2 included), the LCD possibly switched
+			// off while it is in flight; pointer operations only after it has completed
+			sc.Class = "dma"
+			k := (index/6)%114 + 114*r.Intn(3)
+			sc.SetP("nops", int64(k))
+			if it := k / 7; it > 0 {
+				g.emit16(0x01, uint16(it))
+				g.emit(0x0b, 0x78, 0xb1, 0x20, 0xfb)
+			}
+			for i := 0; i < k%7; i++ {
+				g.emit(0x00)
+			}
+			g.emit(0x3e, uint8(r.Range(0xc0, 0xdc)), 0xe0, 0x46) // LD A,page ; LDH (46),A
+			if r.Chance(2, 3) {
+				for i, n := 0, r.Intn(120); i < n; i++ {
+					g.emit(0x00)
+				}
+				g.emit(0x3e, r.Byte()&0x7f, 0xe0, 0x40) // LCD off while the transfer runs
+			}
+			g.emit16(0x01, uint16(r.Range(26, 60))) // at least 182 cycles
+			g.emit(0x0b, 0x78, 0xb1, 0x20, 0xfb)
+			if r.Chance(1, 3) {
+				// with the LCD still on: only outside mode 2 (wait for VBlank)
+				g.emit(0xf0, 0x44, 0xfe, 0x90, 0x20, 0xfa)
+			}
+			c17Block(g, r.Range(4, 30))
+			break
+		}
 		if r.Bool() {
 			sc.Class = "vblank"
 			g.emit(0xf0, 0x44, 0xfe, 0x90, 0x20, 0xfa) // loop: LDH A,(44) ; CP 144 ; JR NZ,loop
@@ -121,6 +150,7 @@ func (c17) Execute(sc *engine.Scenario) *engine.Result {
 	}
 	lcdWasOn := true
 	offMode := -1
+	dmaUntil, dmaSrc := uint64(0), uint16(0)
 	l.onInstr = func(l *lockstep, realCycles int, mism []lsMismatch) bool {
 		for _, mm := range mism {
 			if mm.kind == "undefined" {
@@ -134,6 +164,31 @@ func (c17) Execute(sc *engine.Scenario) *engine.Result {
 			res.Probe(fmt.Sprintf("lcd_off_in_mode%d", offMode))
 		}
 		o := l.m.PeekOAM()
+		for _, a := range l.ref.Acc {
+			if a.Write && a.Addr == 0xff46 {
+				// the guest started a transfer: OAM is the transfer's until it has completed
+				dmaUntil = l.m.N + 166
+				dmaSrc = uint16(l.ref.A) << 8
+				res.Probe(fmt.Sprintf("dma_started_in_mode%d", offMode))
+			}
+		}
+		if dmaUntil != 0 {
+			if l.m.N < dmaUntil {
+				if lcdWasOn && !l.ppu.On {
+					res.Probe("lcd_off_during_dma")
+				}
+				if l.ppu.On {
+					offMode = int(l.ppu.Mode())
+				}
+				lcdWasOn = l.ppu.On
+				return true
+			}
+			dmaUntil = 0
+			for i := 0; i < 0xa0; i++ {
+				l.shadow[0xfe00+i] = l.shadow[dmaSrc+uint16(i)] // what the transfer copied (work RAM, untouched meanwhile)
+			}
+			res.Probe("dma_completed")
+		}
 		excused := l.ppu.On && l.mode2Seen || (lcdWasOn && l.mode2Seen && !l.ppu.On)
 		touches := false
 		for _, a := range l.ref.Acc {
